@@ -41,9 +41,18 @@ def parseVal (s : String) : Option Val :=
       | _, _ => none
   | [] => none
 
-def parseBelow (s : String) : Nat → Bool :=
+/-- index of the Python class of a member's type object in the measured address-order string:
+0 CIntType, 1 CBIntType, 2 CFloatType, 3 CComplexType, 4 PyObjectType, 6 PyExtensionType, 7 MemoryViewSliceType,
+8 the class of Py_ssize_t, 9 the class of size_t, 10+n the class of builtin type n -/
+def clsx : Ty → Nat
+  | .cint 14 1 _ => 8
+  | .cint 14 0 _ => 9
+  | .builtin n => 10 + n
+  | t => t.cls
+
+def parseBelow (s : String) : Ty → Bool :=
   let bits := s.toList
-  fun c => bits.getD c '0' == '1'
+  fun t => bits.getD (clsx t) '0' == '1'
 
 def idxStr (xs : List Nat) : String := "_".intercalate (xs.map toString)
 
